@@ -42,3 +42,10 @@ package config
 //@ func (Param).GetMetadata
 //@   trusted
 //@   assigns nothing
+
+//@ -- Felix's default for ProgramClusterRoutes and its accepted values (struct tag consumed by the parameter loader)
+//@ layout programClusterRoutesTag: tag(Config, ProgramClusterRoutes, config) == "oneof(Enabled,Disabled,EnabledIPIPOnly,EnabledNoEncapOnly);EnabledIPIPOnly"
+//@   property C28
+//@ -- sources are visited from the highest priority down (strictly descending), starting at the internal override
+//@ layout sourcesDescending: descending(SourcesInDescendingOrder) && first(SourcesInDescendingOrder) == InternalOverride && last(SourcesInDescendingOrder) == DatastoreGlobal && len(SourcesInDescendingOrder) == 6
+//@   property C27
